@@ -4,6 +4,8 @@
 mod util;
 mod table;
 mod comp;
+mod peaks;
+mod gens;
 mod exec;
 
 fn main() {
